@@ -4,7 +4,7 @@ import XrsVerif.Proofs.ILProxRel
   Proofs/ILProxMerge.lean -- the generated `_calc_direction` (`dirF`), its inlined copies, and the statement
   that writes `output_img[line][i]` after a sweep (`mergeStmt`).
 -/
-namespace XrsVerif.IL
+namespace XrsVerif.IL.Px
 open XrsVerif XrsVerif.Prox
 variable {F : Type} [Fl F]
 set_option linter.unusedSectionVars false
@@ -550,4 +550,4 @@ theorem finalLoop_exec (D : String) (s : State F) (fuel H W n : Nat) (cx : RowCt
           rw [lp2]; exact hl q (by omega))
   exact ⟨this.1, this.2.1, this.2.2.1, this.2.2.2.1, this.2.2.2.2.1, this.2.2.2.2.2.1⟩
 
-end XrsVerif.IL
+end XrsVerif.IL.Px
